@@ -143,6 +143,30 @@ def worker(case):
         with core.quiet():
             n = s.parse(os.path.join(core.REPO, "example_netlists", "EDIF_netlists", fname))
         tag = "bundled:" + fname
+    elif kind == "pipeline":
+        # read by the EDIF reader, transformed, then written and read again (what a tool chain does)
+        _, base, transform, order = case
+        n = c05.parse_text(edif_writer.render(fdesigns.BASES[base](), rich=True))
+        from spydrnet.uniquify import uniquify
+        from spydrnet.flatten import flatten
+        try:
+            if transform in ("uniquify", "flatten", "uniquify-twice"):
+                uniquify(n)
+            if transform == "uniquify-twice":
+                uniquify(n)
+            if transform == "flatten":
+                flatten(n)
+            if transform == "clone":
+                n = n.clone()
+            if transform == "clone-of-library-added":
+                lib2 = n.libraries[-1].clone()
+                lib2.name = "copy_of_" + n.libraries[-1].name
+                lib2["EDIF.identifier"] = "copy_of_" + n.libraries[-1]["EDIF.identifier"]
+                n.add_library(lib2)
+        except Exception as ex:
+            return {"key": core.digest(case), "nontrivial": False, "outcome": "transform-raised:" + type(ex).__name__,
+                    "problems": [("transform-raised:%s:%s:%s" % (type(ex).__name__, base, transform), repr(ex)[:200])], "transitions": 0}
+        tag = "pipeline:%s:%s" % (base, transform)
     else:  # text from the independent writer, then parsed
         _, base, opts, order = case
         n = c05.parse_text(edif_writer.render(fdesigns.BASES[base](), **opts))
@@ -254,6 +278,9 @@ def cases(tier):
         for opts in fdesigns.edif_option_product(tier):
             if opts["design_case"] == "decl":
                 out.append(("reparsed", base, opts, "asc"))
+        for transform in ("uniquify", "uniquify-twice", "flatten", "clone", "clone-of-library-added"):
+            for order in core.ORDER_VARIANTS:
+                out.append(("pipeline", base, transform, order))
     return out
 
 
